@@ -2,6 +2,7 @@
 #include <verif.h>
 #include <util/feefrac.h>
 #include <policy/feerate.h>
+#include <policy/feerate.cpp>   // the real CFeeRate::CFeeRate / GetFee definitions, in this TU so that the object does not live behind a pointer
 #include <climits>
 
 #ifndef SIZE
@@ -100,7 +101,11 @@ static bool is_ceil(i128 n, int32_t d, int64_t q) { const i128 p = (i128)q * d; 
 // non-zero size becomes -1.  Rate = fee per SIZE vbytes, SIZE concrete (1000 for every rate built from sat/kvB)
 extern "C" void h_getfee()
 {
+#if FEE_CLASS == 0
+    const int64_t fee = (int64_t)(nondet_u64() & 0x1ffffffffULL);   // exactly [0, 2^33)
+#else
     const int64_t fee = nondet_i64();
+#endif
     const int32_t vb = sym_i32(0, INT32_MAX);
     const int32_t size = SIZE;
 #if SIZE == 1000 && defined(PER_KVB)
@@ -109,7 +114,6 @@ extern "C" void h_getfee()
     const CFeeRate rate{fee, size};
 #endif
 #if FEE_CLASS == 0
-    VASSUME(fee >= 0 && fee < 0x200000000LL);
 #elif FEE_CLASS == 1
     VASSUME(fee >= 0x200000000LL);
 #else
@@ -117,22 +121,22 @@ extern "C" void h_getfee()
 #endif
     const i128 n = (i128)fee * vb;
 #ifdef FUSED_RANGE
-    if (size > 0) VASSUME(n >= I64MIN * size - (size - 1) && n <= I64MAX * size);
+    if (SIZE > 0) VASSUME(n >= I64MIN * size - (size - 1) && n <= I64MAX * size);
 #else
-    if (size > 0) { VASSUME(n >= I64MIN * size - (size - 1)); VASSUME(n <= I64MAX * size); }
+    if (SIZE > 0) { VASSUME(n >= I64MIN * size - (size - 1)); VASSUME(n <= I64MAX * size); }
 #endif   // exact result representable (documented requirement)
     const CAmount got = rate.GetFee(vb);
     verif_observe((uint64_t)got);
-    if (size <= 0) {
-        VASSERT(got == 0, "a fee rate constructed with non-positive size is the zero rate");
-    } else if (fee >= 0) {
-        VASSERT(is_ceil(n, size, got), "non-negative rate: fee is rate*vbytes rounded up to the next satoshi");
-        VASSERT(got >= 0, "non-negative rate gives non-negative fee");
-    } else {
-        const bool ceil_is_zero = (-(i128)size < n && n <= 0);
-        if (ceil_is_zero && vb != 0) VASSERT(got == -1, "negative rate never rounds a non-zero size to zero fee: -1");
-        else VASSERT(is_ceil(n, size, got), "negative rate: rounded towards positive infinity");
-    }
+#if SIZE <= 0
+    VASSERT(got == 0, "a fee rate constructed with non-positive size is the zero rate");
+#elif FEE_CLASS != 2
+    VASSERT(is_ceil(n, size, got), "non-negative rate: fee is rate*vbytes rounded up to the next satoshi");
+    VASSERT(got >= 0, "non-negative rate gives non-negative fee");
+#else
+    const bool minus_one_case = vb != 0 && n > -(i128)size && n <= 0;   // ceil(n/size) == 0 although the size is not zero
+    VASSERT(!minus_one_case || got == -1, "negative rate never rounds a non-zero size to zero fee: -1");
+    VASSERT(minus_one_case || is_ceil(n, size, got), "negative rate: rounded towards positive infinity");
+#endif
 #if SIZE > 1
 #if FEE_CLASS != 2
     VWITNESS(fee > 0 && got * (i128)size != n, "inexact positive fee rounded up");
